@@ -13,6 +13,12 @@ def check(run):
         crules.next_rules(run, r2, r3, ast)
         run.rule("C03-best", "best(): the per-pair elimination step used to pick next among the candidates", floor=3)
         crules.best_rules(run, "C03-best", ast)
+        if "C03-model" not in run.rules:
+            run.rule("C03-model", "what next is computed from: a definition's parameter classes come from its own id list, its function from its own record; the class "
+                     "lattice merges every listed base; update runs every phase", floor=8)
+        crules.model_rules(run, "C03-model", ast, parts=("pf", "iter", "vp"))
+        crules.merge_rules(run, "C03-model", None, ast)
+        crules.phase_rules(run, "C03-model", ast)
     run.assumptions += ["that best() returns the most specific elements of its argument for every lattice is a value computed by a graph algorithm: not decided",
                         "the pointer registered as info.next is the definition's own `next` variable (macros / add_definition): type-level, see C20 add_definition witnesses"]
     return run.finish(level="other", explanation="AST decision tables (path enumeration over a finite abstract domain) for is_base and for the selection of the value "
